@@ -138,7 +138,6 @@ PROPS["C14"] = {
 }
 
 PROPS["C05"] = {
-    "ready": False,
     "lean_modules": ["BurrowVerif.Props.C05"],
     "props_files": ["BurrowVerif/Props/C05.lean"],
     "anchors": ["core/internal/evaluator/caching.go", "core/internal/evaluator/coordinator.go"],
